@@ -82,6 +82,7 @@ def structural_sanity(B, dump):
     spaces = [n["space"] for n in dump["nodes"]]
     parts.append(("no trap space appears as two nodes", B.const(len(set(spaces)) == len(spaces))))
     parts.append(("index has one entry per node", B.const(sorted(v for _, v in dump["index"]) == ids)))
+    parts.append(("node_indices = {space_unique_key(space, network): id} for all nodes", B.const(dump.get("index_consistent", True) is True)))
     return parts
 
 
